@@ -1,7 +1,7 @@
 (* EnvOk.v -- the facts about the implementation's data (compiled automata,
    reply constants) that the theorems rely on. [env_ok] is a boolean, decided by
    kernel computation on the freshly generated data on every run (Instance.v). *)
-From MS Require Export Proto.
+From MS Require Export Proto Spec.RefHttp Spec.HttpTbl.
 
 Definition nonempty (b : bytes) : bool := negb (length b =? 0)%nat.
 
@@ -13,4 +13,8 @@ Definition env_ok (E : env) : bool :=
   bytes_ok (e_http_pre E) && bytes_ok (e_http_post E) && bytes_ok (e_ssh_banner E) && bytes_ok (e_ghost E) &&
   (* C03: a constant reply is at least two bytes long and does not begin like a
      STUN binding success response (01 01) *)
-  not_stun_head (e_http_pre E) && not_stun_head (e_ssh_banner E) && not_stun_head (e_ghost E).
+  not_stun_head (e_http_pre E) && not_stun_head (e_ssh_banner E) && not_stun_head (e_ghost E) &&
+  (* C13 / C11 (HTTP): verb matcher against the method trie, the nine "VERB /"
+     signatures in the protocol matcher, the 401 template around the Date value *)
+  http_tbl_ok (e_http_tbl E) && proto_http_ok (e_proto_tbl E) PROTO_HTTP &&
+  http_tpl_ok (e_http_pre E) (e_http_post E).
